@@ -225,6 +225,25 @@ func checkC07(c *Ctx) {
 		}
 		c.decide("PASS-index-maintenance", "Importer.Commit loads the imported version (rebuild decision)", l.pos(impCommit.Pos()), ok, "passes LoadVersion", "import can succeed without LoadVersion: the index is never built for the imported tree")
 	}
+	// index build: the label that declares the index complete is queued after every fast node
+	if efc2, lab := l.Func("", "*MutableTree.enableFastStorageAndCommit"), l.Func("", "*nodeDB.SetFastStorageVersionToBatch"); efc2 == nil || lab == nil {
+		c.anchorMissing("PASS-index-maintenance", "enableFastStorageAndCommit / SetFastStorageVersionToBatch")
+	} else {
+		mutR := batchMutationReach(l)
+		commitP := predStatic(l.Func("", "*nodeDB.Commit"))
+		for _, in := range callsIn(efc2, predStatic(lab)) {
+			later := reachableAfter(in, func(x ssa.Instruction) bool {
+				cc := callCommon(x)
+				return cc != nil && !commitP(cc) && mutR.Instr(x)
+			}, func(x ssa.Instruction) bool { cc := callCommon(x); return cc != nil && commitP(cc) })
+			msg := ""
+			if len(later) > 0 {
+				msg = "after the index label was queued, " + l.calleeName(later[0]) + " at " + l.ipos(later[0]) + " queues more index entries: a flush in between persists a label that declares a partial index complete, and no later open rebuilds it"
+			}
+			c.decide("PASS-index-maintenance", "index build: label queued after every fast node", l.ipos(in), len(later) == 0, "the label is the last batch mutation before Commit", msg)
+		}
+	}
+
 	// overlay recording
 	set := l.Func("", "*MutableTree.set")
 	rsl := l.Func("", "*MutableTree.recursiveSetLeaf")
